@@ -37,6 +37,11 @@ fn coverage(a: &Universal2DBox, b: &Universal2DBox) -> f64 {
 const MARGIN: f64 = 1e-4;
 
 fn judge(dets: &[(Universal2DBox, Option<f32>)], nms_thr: f32, score_thr: Option<f32>) -> Result<usize, (&'static str, String)> {
+    judge_m(dets, nms_thr, score_thr, MARGIN)
+}
+
+/// `margin` = 0: exact family (all quantities dyadic, so every correctly rounded computation is exact)
+fn judge_m(dets: &[(Universal2DBox, Option<f32>)], nms_thr: f32, score_thr: Option<f32>, margin: f64) -> Result<usize, (&'static str, String)> {
     let out = nms(dets, nms_thr, score_thr);
     // identify returned references by address
     let base = dets.as_ptr() as usize;
@@ -84,7 +89,7 @@ fn judge(dets: &[(Universal2DBox, Option<f32>)], nms_thr: f32, score_thr: Option
     for (pj, &j) in idx.iter().enumerate() {
         for &i in &idx[..pj] {
             let c = coverage(&dets[i].0, &dets[j].0);
-            if c > thr + MARGIN {
+            if c > thr + margin {
                 return Err(("nms/kept-box-covered", format!("kept box {j} is covered {c:.4} > {thr} by earlier kept box {i}")));
             }
         }
@@ -100,7 +105,7 @@ fn judge(dets: &[(Universal2DBox, Option<f32>)], nms_thr: f32, score_thr: Option
                 best = best.max(coverage(&dets[k].0, &dets[d].0));
             }
         }
-        if best < thr - MARGIN {
+        if (margin > 0.0 && best < thr - margin) || (margin == 0.0 && best <= thr) {
             return Err(("nms/dropped-without-cover", format!("dropped box {d} is covered at most {best:.4} <= {thr} by kept boxes of higher or equal rank")));
         }
     }
@@ -116,7 +121,7 @@ fn judge(dets: &[(Universal2DBox, Option<f32>)], nms_thr: f32, score_thr: Option
         for (pj, _) in again.iter().enumerate() {
             for pi in 0..pj {
                 let c = coverage(&again[pi].0, &again[pj].0);
-                if (c - thr).abs() <= MARGIN {
+                if margin > 0.0 && (c - thr).abs() <= margin {
                     near = true;
                 }
             }
@@ -134,7 +139,7 @@ fn dj(d: &[(Universal2DBox, Option<f32>)]) -> serde_json::Value {
 
 pub fn run(tier: Tier) -> Report {
     let rep = Report::new("C14", tier);
-    rep.set_rule("every list of n <= 4 (quick) / 5 (thorough) boxes drawn with repetition from an 11-box menu (cluster of shifted boxes, nested, exact duplicate, rotated, disjoint, two corner overlaps, two invalid) x score patterns (all None; every distinct permutation of a prefix of {.9,.5,.5,.1,.7}) x nms threshold {.05,.2,.3,.5,.7} x score threshold {None, below, inside, above}; plus chain / ladder / grid families of k boxes for every k <= 40. Non-trivial = at least two valid boxes.");
+    rep.set_rule("every list of n <= 4 (quick) / 5 (thorough) boxes drawn with repetition from an 11-box menu (cluster of shifted boxes, nested, exact duplicate, rotated, disjoint, two corner overlaps, two invalid) x score patterns (all None; every distinct permutation of a prefix of {.9,.5,.5,.1,.7}) x nms threshold {.05,.2,.3,.5,.7} x score threshold {None, below, inside, above}; plus chain / ladder / grid families of k boxes for every k <= 40; plus an exact family: every list of 2 (thorough: 3) boxes from 60 axis-aligned boxes with dyadic corners and sizes x thresholds {1/8,1/4,1/2,3/4}, decided with zero margin (coverage exactly at the threshold must not suppress). Non-trivial = at least two valid boxes.");
     rep.assume("own coverage computation (engine/src/geom.rs); keep/drop decisions asserted outside a 1e-4 margin around the threshold");
     let m = menu();
     let nmax = tier.pick(4usize, 5usize);
@@ -194,6 +199,47 @@ pub fn run(tier: Tier) -> Report {
                 rep.sample(json!({"detections":dj(&boxes.iter().cloned().map(|b| (b, None)).collect::<Vec<_>>()),"score_patterns":pats.len()}));
             }
         });
+    }
+    // exact family: axis-aligned boxes whose corners, sizes, areas and overlap ratios are dyadic
+    // rationals, thresholds dyadic: coverage == threshold happens exactly and "more than" is decided
+    // with zero margin (any correctly rounded f32 computation is exact on these inputs)
+    {
+        let mut em: Vec<Universal2DBox> = vec![];
+        for (w, h) in [(2.0f32, 2.0f32), (4.0, 4.0), (2.0, 4.0), (4.0, 2.0), (8.0, 2.0)] {
+            for l in 0..4 {
+                for t in 0..3 {
+                    em.push(Universal2DBox::ltwh(l as f32, t as f32, w, h));
+                }
+            }
+        }
+        let exact_thrs = [0.125f32, 0.25, 0.5, 0.75];
+        let ties = AtomicU64::new(0);
+        let nmax = tier.pick(2usize, 3usize);
+        for n in 2..=nmax {
+            let total = em.len().pow(n as u32);
+            par_for(total, 256, |code| {
+                let mut k = code;
+                let mut boxes = vec![];
+                for _ in 0..n {
+                    boxes.push(em[k % em.len()].clone());
+                    k /= em.len();
+                }
+                for scores in 0..2 {
+                    let dets: Vec<(Universal2DBox, Option<f32>)> = boxes.iter().enumerate().map(|(i, b)| (b.clone(), if scores == 0 { None } else { Some(0.875 - 0.125 * i as f32) })).collect();
+                    for &nt in &exact_thrs {
+                        evals.fetch_add(1, Ordering::Relaxed);
+                        nontrivial.fetch_add(1, Ordering::Relaxed);
+                        if (0..n).any(|i| (0..n).any(|j| i != j && coverage(&boxes[i], &boxes[j]) == nt as f64)) {
+                            ties.fetch_add(1, Ordering::Relaxed);
+                        }
+                        if let Err((key, what)) = judge_m(&dets, nt, None, 0.0) {
+                            rep.violation(Violation { key: format!("{key}/exact"), what, replay: json!({"family":"exact","detections":dj(&dets),"nms_threshold":nt,"score_threshold":null}) });
+                        }
+                    }
+                }
+            });
+        }
+        rep.extra("exact_family", json!({"menu":em.len(),"max_list_length":nmax,"lists_with_a_coverage_exactly_at_the_threshold":ties.load(Ordering::Relaxed)}));
     }
     // families for every k <= 40
     for k in 1..=40usize {
